@@ -1754,8 +1754,17 @@ def gen_tick_plan():
            f"def copies_snapshot (inner_running was_canceled state_canceled : Bool) : Bool := inner_running && ({cond(mi.group('c_update'))})", "",
            "/-- when spawning: the worker gets the current pattern, the cancel flag is lowered, and `if .. { should_notify.store(true) }`; the run is",
            "    `inner.run(status, self.state.cleared())`, with the current item list handed over on a cleared run -/",
-           f"def rearms_on_spawn (canceled : Bool) : Bool := {cond(mi.group('c_rearm'))}", "",
-           "end NucleoVerif.Gen.TickPlan"]
+           f"def rearms_on_spawn (canceled : Bool) : Bool := {cond(mi.group('c_rearm'))}", ""]
+    states = enum_variants(lsrc, "State")
+    mr = re.fullmatch(r"\{\s*self\.canceled\.store\(true, Ordering::Relaxed\);\s*self\.items = Arc::new\(boxcar::Vec::with_capacity\(\d+, self\.items\.columns\(\)\)\);\s*"
+                      r"self\.state = State::(\w+);\s*if clear_snapshot \{\s*self\.snapshot\.clear\(self\.items\.clone\(\)\);\s*\}\s*\}", bodies.get("restart", [""])[0].strip(), re.S)
+    if not mr or mr.group(1) not in states:
+        raise TranslateError("Nucleo::restart has an unexpected shape")
+    out += ["/-- `restart(clear_snapshot)`: raise the cancel flag, a new empty item list with the same number of columns, `state = State::<this>`",
+            "    (" + ", ".join(f"{i} = {k}" for i, k in enumerate(states)) + "), and `if clear_snapshot { snapshot.clear(new list) }` -/",
+            f"def restart_state : Nat := {states.index(mr.group(1))}", "",
+            "def restart_clears_snapshot (clear_snapshot : Bool) : Bool := clear_snapshot", "",
+            "end NucleoVerif.Gen.TickPlan"]
     return "\n".join(out) + "\n"
 
 
